@@ -10,7 +10,7 @@ open AITB AITB.MDP
   line   := C01 <op> <mode> <rep> <mdp> <op args> | <impl output>
   mode   := 1 exact (dyadic inputs, short run: compare with ==) | 2 dyadic inputs, long run (compare to 1e-9) | 0 non-dyadic inputs (1e-9)
   mdp    := S A γ  T[s][a][s1]…  R3[s][a][s1]…        (S*A*S numbers each, no length prefix)
-  rep    := dense | sparse | learned | generic
+  rep    := dense | sparse | learned | learned_sp | learned_sx | learned_spsx | thompson | generic
 -/
 namespace DrvC01
 
@@ -36,7 +36,7 @@ def ctxP : P Ctx := do
   let mode ← P.nat
   let rn ← P.tok
   let rep ← (match rn with
-    | "dense" | "sparse" | "learned" => pure Rep.eigen
+    | "dense" | "sparse" | "learned" | "learned_sp" | "learned_sx" | "learned_spsx" | "thompson" => pure Rep.eigen
     | "generic" => pure Rep.generic
     | _ => P.fail)
   let m ← mdpP
@@ -48,6 +48,9 @@ def capOf (c : Ctx) (h : Nat) : Nat := if c.exact then h else if c.dyadic then m
 def powR (x : Rat) : Nat → Rat
   | 0 => 1
   | n+1 => x * powR x n
+
+def qmaxOf (m : MDP) (q : Mat) : Rat :=
+  (List.range m.S).foldl (fun acc s => (List.range m.A).foldl (fun acc a => if acc < absR (q.get s a) then absR (q.get s a) else acc) acc) 0
 
 def rmaxOf (m : MDP) : Rat :=
   (List.range m.S).foldl (fun acc s => (List.range m.A).foldl (fun acc a => if acc < absR (m.R s a) then absR (m.R s a) else acc) acc) 0
@@ -96,11 +99,11 @@ def viMargin (m : MDP) (rep : Rep) (ir : Mat) (tol : Rat) : Nat → VIState → 
     let mg := if d < mg then d else mg
     if !(decide (st.variation > tol)) then mg else viMargin m rep ir tol fuel (viStep m rep ir true st) mg
 
-/-- `vi <ctx> h tol warm | variation V[S] acts[S] Q[S][A]` -/
+/-- `vi <ctx> h tol warm | variation V[S] nActs acts[nActs] Q[S][A]` -/
 def vi : P String := do
   let c ← ctxP; let m := c.m
   let h ← P.nat; let tol ← P.q; let warm ← warmVFP m.S; P.bar
-  let iVar ← P.q; let iV ← vecP m.S; let iActs ← natsP m.S; let iQ ← matP m.S m.A; P.eof
+  let iVar ← P.q; let iV ← vecP m.S; let iActsL ← P.nats; let iActs := iActsL.toArray; let iQ ← matP m.S m.A; P.eof
   let hm := capOf c h
   let out := valueIteration m c.rep hm tol warm
   let useTol := useTolerance tol
@@ -109,7 +112,7 @@ def vi : P String := do
   -- conditioning of the tolerance test (only matters for inexact arithmetic)
   let v1 : VF := match warm with
     | none => makeVF m.S
-    | some v => if v.values.size != m.S then makeVF m.S else v
+    | some v => acceptWarm m.S v
   let warmUsed := match warm with | none => false | some v => v.values.size == m.S
   let margin := if useTol && !c.exact && !capped then viMargin m c.rep (immRewards m c.rep) tol hm ⟨v1, makeQ m.S m.A, tol * 2, 0⟩ 1 else 1
   let illc := decide (margin < sl / 100)
@@ -124,7 +127,7 @@ def vi : P String := do
   let wellc := c.exact || allLt m.S (fun s => rowWellCond m.A (out.q.get s) sl)
   let v := v.diffIf (!nodiff && wellc && out.vf.actions != iActs) s!"{comp} actions model={out.vf.actions} impl={iActs}"
   -- L3: property clauses on the implementation's own output
-  let actsOK := (match warm with | some w => w.actions.size == m.S || w.values.size != m.S | none => true)
+  let actsOK := AITB.Gen.C01.viResizesActions || (match warm with | some w => w.actions.size == m.S || w.values.size != m.S | none => true)
   let stepped := h > 0
   -- (a) tolerance zero, default start: exactly the h-step DP values and their backup
   let v := if !useTol && !warmUsed && !capped then
@@ -136,6 +139,13 @@ def vi : P String := do
         let prev := optIter m (h - 1)
         v.failIf (!(eqMat c m.S m.A (mkMat m.S m.A (qBackup m prev.get)) iQ)) s!"{comp} q_not_backup"
     else v
+  -- (a') tolerance zero, accepted warm start: exactly h backups of the supplied values (whatever its actions vector holds)
+  let v := match warm with
+    | some w => if !useTol && warmUsed && !capped then
+        let dp := optIterFrom m w.values h
+        v.failIf (!(eqVec c m.S dp iV)) s!"{comp} warm_start_not_iterated want={showVec dp} got={showVec iV}"
+      else v
+    | none => v
   -- (b) greedy actions and V = max Q on the implementation's own Q (exact: V is a copy of a Q entry)
   let v := if stepped && actsOK then
       let v := v.failIf (!(checkGreedy m.S m.A iQ.get (natAt iActs) 0)) s!"{comp} action_not_greedy {iActs}"
@@ -239,8 +249,12 @@ def pi : P String := do
   let v : Verdict := { tag := (if m.S ≤ 1 && m.A ≤ 1 then "trivial " else "") ++ (if useTol then "pi_tol" else "pi_dp")
                               ++ (if tr.capped then " capped" else "") ++ (if !tr.wellCond then " illcond" else "") ++ " " ++ c.repName }
   -- L3 (does not depend on the model run): V := max_a Q satisfies the Bellman equation within γ(tol + 2·tolSmall)
-  let v := if useTol && mustConverge m h tol then
-      let eps := tol + 2 * AITB.Gen.equalToleranceSmall
+  -- hypothesis of policyIteration_chain that is checkable on the output: the greedy matrix of the returned Q is a distribution
+  let coh := checkValidPi m (greedyPolicy m.S m.A iQ).get
+  let v := { v with tag := v.tag ++ (if coh then "" else " incoherent_greedy") }
+  let v := if useTol && coh && mustConverge m h tol then
+      -- policyIteration_chain + greedyRow_near_max: τ = 2·tieSlack B, B = largest |Q| entry
+      let eps := tol + 2 * tieSlack (qmaxOf m iQ)
       v.failIf (!(checkResidual m iV.get (m.γ * eps + sl))) s!"{comp} residual_exceeds_bound res={ratStr (residual m iV.get)} bound={ratStr (m.γ * eps)}"
     else v
   if !tr.ok then return (v.diffIf true s!"{comp} model_out_of_fuel").render else
@@ -277,7 +291,7 @@ def agree : P String := do
   let vPI := mkVec m.S (fun s => maxTo (m.A - 1) (qPI.get s))
   let sl := fslack m vVI
   let bVI := m.γ * tolVI + sl
-  let bPI := m.γ * (tolPI + 2 * AITB.Gen.equalToleranceSmall) + sl
+  let bPI := m.γ * (tolPI + 2 * tieSlack (qmaxOf m qPI)) + sl
   let bLP := prec * scaleOf m vLP
   let k := 1 / (1 - m.γ)
   let comp := "Agreement"
